@@ -1,4 +1,8 @@
 (* ---- lua_legs.inc.ml: model observables of the Lua front end shared by the C01/C03/C04 drivers ---- *)
+(* Model/Lexer.v: the lexer takes the variant of readEscapeSequence as its first argument (class FxEscape; extracted as a
+   bool). The drivers run the variant that is in /repo, fx_deployed - the one parse_bytes uses as well. *)
+let lex_all gbk bs = lex_all fx_deployed gbk bs
+
 let parse_model ?(nolocs = false) (bs : n list) : string =
   oracle_used := false;
   let r = parse_bytes gbk_oracle classify_tok bs in
